@@ -9,6 +9,7 @@ require (
 	github.com/kubewharf/kubebrain-client v0.2.1
 	github.com/tikv/client-go/v2 v2.0.1
 	go.etcd.io/etcd/api/v3 v3.5.2
+	go.etcd.io/etcd/client/v3 v3.5.2
 	google.golang.org/grpc v1.43.0
 	k8s.io/apimachinery v0.20.4
 	k8s.io/client-go v0.20.2
